@@ -580,7 +580,7 @@ def main(argv):
             ok = sum(1 for o in r["obligations"] if o["status"] == "SUCCESS")
             ent = {"set": s["id"], "mode": s["mode"], "what": s.get("what", ""), "functions": s.get("functions", []), "obligations": n, "discharged": ok,
                    "solver_time_s": round(r.get("solver_time_s", 0), 2), "build_time_s": round(r.get("build_time_s", 0), 2),
-                   "backend": ("cbmc 6.11 symex + SAT (MiniSat default)" if s["mode"] in ("U", "L", "B") else "native clang ASan/UBSan" if s["mode"] == "N" else "python syntactic check"),
+                   "backend": s.get("backend") or ("cbmc 6.11 symex + SAT (MiniSat default)" if s["mode"] in ("U", "L", "B") else "native clang ASan/UBSan" if s["mode"] == "N" else "python syntactic check"),
                    "params": r.get("params", {}), "cmds": r.get("cmds", []), "undecided": r.get("undecided")}
             if s["mode"] in ("U", "L"):
                 proof_ob += n
